@@ -9,6 +9,8 @@
  *     <k>:errno=<n>     mutating call k fails with errno n, nothing happens
  *     <k>:short=<n>     write k really writes at most n bytes and returns that count
  *     <k>:sticky=<n>    mutating call k and all later ones fail with errno n
+ *     <k>:kill=0        the process is killed (SIGKILL) right before mutating call k
+ *     <k>:kill=1        the process is killed right after mutating call k has been carried out
  *     r<k>:errno=<n>    read k fails with errno n
  *     r<k>:short=<n>    read k returns at most n bytes
  *
@@ -20,6 +22,7 @@
 #include <dlfcn.h>
 #include <errno.h>
 #include <fcntl.h>
+#include <signal.h>
 #include <stdarg.h>
 #include <stdio.h>
 #include <stdlib.h>
@@ -40,11 +43,12 @@ static int initialised = 0;
 static const char *dir = NULL;
 static size_t dir_len = 0;
 static int log_fd = -1;
+static int kill_after_call = 0;
 
 struct rule {
     int is_read;
     long k;
-    int kind; /* 1 errno, 2 short, 3 sticky */
+    int kind; /* 1 errno, 2 short, 3 sticky, 4 kill */
     long n;
 };
 static struct rule rules[MAX_RULES];
@@ -104,6 +108,7 @@ static void init(void) {
             if (!strcmp(colon + 1, "errno")) r.kind = 1;
             else if (!strcmp(colon + 1, "short")) r.kind = 2;
             else if (!strcmp(colon + 1, "sticky")) r.kind = 3;
+            else if (!strcmp(colon + 1, "kill")) r.kind = 4;
             else continue;
             rules[n_rules++] = r;
         }
@@ -156,7 +161,23 @@ static int mutating(const char *op, const char *what, long *short_n) {
         *short_n = r->n;
         logf_("F %ld short=%ld\n", mut_ordinal, r->n);
     }
+    if (r->kind == 4) {
+        logf_("F %ld kill=%ld\n", mut_ordinal, r->n);
+        if (r->n == 0) {
+            kill(getpid(), SIGKILL);
+            for (;;) pause();
+        }
+        kill_after_call = 1;
+    }
     return 0;
+}
+
+/* Crash point right after a mutating call has been carried out. */
+static void crash_point(void) {
+    if (kill_after_call) {
+        kill(getpid(), SIGKILL);
+        for (;;) pause();
+    }
 }
 
 static int after_open(int fd, const char *path, int flags) {
@@ -191,7 +212,9 @@ int open(const char *path, int flags, ...) {
                 return -1;
             }
         }
-        return after_open(real_open(path, flags, mode), path, flags);
+        int fd = after_open(real_open(path, flags, mode), path, flags);
+        crash_point();
+        return fd;
     }
     return real_open(path, flags, mode);
 }
@@ -213,7 +236,9 @@ int open64(const char *path, int flags, ...) {
                 return -1;
             }
         }
-        return after_open(real_open64(path, flags, mode), path, flags);
+        int fd = after_open(real_open64(path, flags, mode), path, flags);
+        crash_point();
+        return fd;
     }
     return real_open64(path, flags, mode);
 }
@@ -235,7 +260,9 @@ int openat(int dirfd, const char *path, int flags, ...) {
                 return -1;
             }
         }
-        return after_open(real_openat(dirfd, path, flags, mode), path, flags);
+        int fd = after_open(real_openat(dirfd, path, flags, mode), path, flags);
+        crash_point();
+        return fd;
     }
     return real_openat(dirfd, path, flags, mode);
 }
@@ -265,6 +292,9 @@ ssize_t write(int fd, const void *buf, size_t count) {
             return -1;
         }
         if (short_n >= 0 && (size_t)short_n < count) count = (size_t)short_n;
+        ssize_t done = real_write(fd, buf, count);
+        crash_point();
+        return done;
     }
     return real_write(fd, buf, count);
 }
@@ -298,6 +328,9 @@ int rename(const char *from, const char *to) {
             errno = e;
             return -1;
         }
+        int rc = real_rename(from, to);
+        crash_point();
+        return rc;
     }
     return real_rename(from, to);
 }
@@ -310,6 +343,9 @@ int unlink(const char *path) {
             errno = e;
             return -1;
         }
+        int rc = real_unlink(path);
+        crash_point();
+        return rc;
     }
     return real_unlink(path);
 }
